@@ -114,7 +114,13 @@ def run(which, tier):
         print(n, results[n]["status"], results[n]["seconds"], "s", "|", "; ".join(s[:100] for s in sigs[:3]))
         if r.returncode == 2:
             print(r.stdout[-1500:])
-        json.dump(results, open(resf, "w"), indent=1, sort_keys=True)
+        # read-modify-write under a lock: several runs may record results concurrently
+        import fcntl
+        with open(resf + ".lock", "w") as lk:
+            fcntl.flock(lk, fcntl.LOCK_EX)
+            cur = json.load(open(resf)) if os.path.exists(resf) else {}
+            cur[n] = results[n]
+            json.dump(cur, open(resf, "w"), indent=1, sort_keys=True)
 
 
 if __name__ == "__main__":
